@@ -478,6 +478,10 @@ def leaf_eval(r):
         return (res == mv and res != "PANIC", res == mv and res != "PANIC",
                 "reader %s rep=%s field=%s inside %s on %s init=%s -> %s (model %s)" % (k, rep, field, ["Message", "PresentMessage", "RepeatedMessage"][int(wrap) % 3], data, init, res, mv),
                 "n|" + "|".join(c[:6]), len(data) > 8, k)
+    if s == "dreader":
+        k, rep, field, data, init, depth, deep, one = c[:8]
+        return (deep == one, True, "reader %s rep=%s field=%s on %s, %s messages deep -> %s; one level deep -> %s" % (k, rep, field, data, depth, deep, one),
+                "d|" + "|".join(c[:6]), len(data) > 3, k)
     if s == "fnstr":
         f, impl, ref = c[:3]
         return (impl == ref, impl == mv, "FieldNumber(%s).String() = %s, strconv.Itoa = %s, model %s" % (f, impl, ref, mv), f, f not in ("0",), "fnstr")
@@ -556,7 +560,7 @@ def check_C13(ctx):
                           ("eprogs", ["eprogs", c.seed, _n(c, 4000, 60000)])],
         rule="programs of Encoder calls (typed writers, RepeatedEnum, UnrecognizedFields, Message/AlwaysMessage/PresentMessage/AlwaysAnyBytes nested to depth 3, callbacks that write and "
              "then report absence, bodies of 0/127/128/16383/16384 bytes, fresh / reused-with-stale-content / one-byte-capacity buffers); exhaustive grids: 60 typed writers x boundary value alphabet x field-number alphabet (1..2^29-1 boundaries) x dirty/tight buffers, lists across packed length classes; "
-             "30 typed readers x pending{same,other} x wire types 0-7 x payload alphabet (valid, empty, truncated, overlong, packed), non-zero initial lists; "
+             "30 typed readers x pending{same,other} x wire types 0-7 x payload alphabet (valid, empty, truncated, overlong, packed), non-zero initial lists, also inside Message callbacks 1, 5, 9 and 17 levels deep; "
              "1500 sequences of reader calls over one input with destinations that persist from call to call (every step a reader row; afterwards no earlier output and no input byte may have changed); "
              "reference = protobuf-go protowire; non-trivial = non-default value / payload longer than a tag"))
 
